@@ -211,6 +211,17 @@ pub fn gen(seed: u64, thorough: bool) {
             }
         }
     }
+    // (c1) numbers around the largest finite double at every digit count of the mantissa: "every number is finite as f64"
+    for (n, t) in overflow_boundary().into_iter().enumerate() {
+        if !thorough && n % 3 != 0 {
+            continue;
+        }
+        out.line(&format!("c02 {}", hex(&t)));
+        let mut a = b"[".to_vec();
+        a.extend_from_slice(&t);
+        a.extend_from_slice(b"]");
+        out.line(&format!("c02 {}", hex(&a)));
+    }
     // (c) sweeps: a string/number/whitespace token of every length at every offset
     let step = if thorough { 1 } else { 7 };
     for off in (0..=64).step_by(step) {
